@@ -57,7 +57,9 @@ class C26(Prop):
           "number equal to the number this process binds to that name (unchanged for known names, "
           "newly registered for new ones), and the binding of every other name unchanged; the same text "
           "decoded a second time, after the first decoded event's payload was modified in place, gives the "
-          "original payload again. "
+          "original payload again; an event sent a second time after its payload was changed in place arrives with the "
+          "changed payload. Names include the characters JSON must escape (quotes, backslashes, control characters) and "
+          "format-string look-alikes. "
           "Non-trivial: payload nesting depth >= 2, or a non-ASCII name, or a name first registered "
           "by loads; distinct = distinct (name, payload) digests.")
   assumptions = ["tuples are not generated (JSON has no tuple)", "NaN/inf are excluded by the statement"]
@@ -68,7 +70,11 @@ class C26(Prop):
                       st.sampled_from(["items", "keys", "values", "pop", "get", "update", "clear", "copy", "append",
                                        "highest_inner_signal", "is_inner_signal", "name_for_signal", "__dict__",
                                        "__class__", "move_to_end", "popitem", "setdefault", "fromkeys"]),
-                      st.text(alphabet="ABCDEFGHIJ_", min_size=1, max_size=8))
+                      st.text(alphabet="ABCDEFGHIJ_", min_size=1, max_size=8),
+                      # characters JSON has to escape
+                      st.text(alphabet='"\\/\n\t\r\b\f\x00\x1f ab\u2028\'', min_size=1, max_size=6),
+                      st.sampled_from(['a"b', 'back\\slash', 'tab\\there', 'new\nline', '\\', '"', '\\"', '\\u0041',
+                                       '%s', '{}', '{0}', '%(x)s']))
     return st.fixed_dictionaries({"name": names, "payload": json_payload,
                                   "foreign": st.integers(0, 2).map(lambda i: i == 0)})
 
@@ -123,6 +129,20 @@ class C26(Prop):
       raise PropertyViolation("name %r payload %r: decoding the same text again, after the first decoded "
                               "event was modified, gave name %r payload %r" % (
                                 name, payload, e3.signal_name, e3.payload), "C26:payload")
+    # an event that is sent again after its payload was changed in place carries the new payload
+    if e is not None and isinstance(e.payload, (list, dict)):
+      try:
+        if isinstance(e.payload, list):
+          e.payload.append("vf-added")
+        else:
+          e.payload["vf-added"] = [1]
+        e4 = Event.loads(Event.dumps(e))
+      except Exception as ex:
+        raise PropertyViolation("name %r: sending the event again after changing its payload raised %s: %s" % (
+          name, type(ex).__name__, ex), "C26:raised")
+      if not same(e4.payload, e.payload) or e4.signal_name != name:
+        raise PropertyViolation("name %r: the event was sent again after its payload was changed in place to %r, "
+                                "it arrived with %r" % (name, e.payload, e4.payload), "C26:payload")
     for k, v in before.items():
       if signals.get(k) != v:
         raise PropertyViolation("loading %r changed the binding of %r: %r -> %r" % (
